@@ -187,8 +187,10 @@ def create_OpenSSLOptimizations(curve_id: int) -> type[Any]:
         def inverse_mod(self, a: int, p: int) -> int:
             ctx = OpenSSL.BN_CTX_new()
             a1 = OpenSSL.BignumType(a)
-            OpenSSL.BN_mod_inverse(a1, a1, OpenSSL.BignumType(p), ctx)
+            r = OpenSSL.BN_mod_inverse(a1, a1, OpenSSL.BignumType(p), ctx)
             OpenSSL.BN_CTX_free(ctx)
+            # NULL: no inverse exists, and a1 still holds the operand; Curve.inverse_mod asserts here too
+            assert r, "no inverse"
             return int(a1.to_int())
 
     return Optimizations
